@@ -35,22 +35,28 @@ VM(v) == [k |-> "uniform", v |-> v]
 TOps == {"replace", "add", "subtract"}
 COps == {"replace", "replace defined only", "add", "subtract"}
 
-(* model assignments: vary one kind at a time, plus one with everything *)
+(* model assignments: the temperature and the composition models of a feature are LISTS, applied in order; vary one
+   kind at a time, plus one with everything, plus lists of two models (the second one sees what the first one left) *)
 MA(t, c, g, v) == [t |-> t, c |-> c, g |-> g, v |-> v]
-TVariants == {MA(TM(v, o), None, None, None) : v \in {100, 300}, o \in TOps}
-CVariants == {MA(None, CM(cs, o), None, None) : cs \in {<<0>>, <<1>>, <<0, 1>>}, o \in COps}
-GVariants == {MA(None, None, GM(m), None) : m \in {1, 2}}
-FullMA    == MA(TM(500, "replace"), CM(<<1>>, "replace"), GM(2), VM(<<4, 5, 6>>))
-EmptyMA   == MA(None, None, None, None)
-Assignments == TVariants \cup CVariants \cup GVariants \cup {FullMA, EmptyMA}
+TVariants == {MA(<<TM(v, o)>>, <<>>, None, None) : v \in {100, 300}, o \in TOps}
+CVariants == {MA(<<>>, <<CM(cs, o)>>, None, None) : cs \in {<<0>>, <<1>>, <<0, 1>>}, o \in COps}
+GVariants == {MA(<<>>, <<>>, GM(m), None) : m \in {1, 2}}
+TwoModels == { MA(<<TM(100, "replace"), TM(30, "add")>>, <<>>, None, None), MA(<<TM(100, "add"), TM(300, "replace")>>, <<>>, None, None),
+               MA(<<TM(40, "subtract"), TM(20, "subtract")>>, <<>>, None, None),
+               MA(<<>>, <<CM(<<0>>, "add"), CM(<<0, 1>>, "replace defined only")>>, None, None),
+               MA(<<>>, <<CM(<<0, 1>>, "add"), CM(<<1>>, "replace")>>, None, None),
+               MA(<<>>, <<CM(<<1>>, "replace"), CM(<<0>>, "subtract")>>, None, None) }
+FullMA    == MA(<<TM(500, "replace")>>, <<CM(<<1>>, "replace")>>, GM(2), VM(<<4, 5, 6>>))
+EmptyMA   == MA(<<>>, <<>>, None, None)
+Assignments == TVariants \cup CVariants \cup GVariants \cup TwoModels \cup {FullMA, EmptyMA}
 
 Feat(ty, ext, ma, tag) == [type |-> ty, ext |-> ext, ma |-> ma, tag |-> tag]
 Catalogue ==    {Feat(ty, "cover", ma, "") : ty \in Types, ma \in Assignments}
            \cup {Feat(ty, "cover", FullMA, tg) : ty \in Types, tg \in {"A", "B"}}
            \cup {Feat(ty, e, FullMA, "X") : ty \in Types, e \in {"hmiss", "dmiss"}}
 Reduced ==      {Feat(ty, "cover", ma, "") : ty \in Types,
-                      ma \in {MA(TM(100, o), None, None, None) : o \in TOps}
-                         \cup {MA(None, CM(<<0>>, o), None, None) : o \in COps} \cup {EmptyMA}}
+                      ma \in {MA(<<TM(100, o)>>, <<>>, None, None) : o \in TOps}
+                         \cup {MA(<<>>, <<CM(<<0>>, o)>>, None, None) : o \in COps} \cup {EmptyMA}}
            \cup {Feat(ty, e, FullMA, "X") : ty \in {"oceanic plate", "fault"}, e \in {"hmiss", "dmiss"}}
 
 (***************************************************************************)
@@ -64,16 +70,20 @@ ApplyOp(op, old, new) == CASE op \in {"replace", "replace defined only"} -> new
                            [] op = "subtract" -> old - new
 
 (* temperature, in kelvin *)
-PaintT(f, old) == IF f.ma.t.k = "none" THEN old ELSE ApplyOp(f.ma.t.op, old, f.ma.t.v)
+RECURSIVE PaintTs(_, _, _)
+PaintTs(ms, k, old) == IF k > Len(ms) THEN old ELSE PaintTs(ms, k + 1, ApplyOp(ms[k].op, old, ms[k].v))
+PaintT(f, old) == PaintTs(f.ma.t, 1, old)
 
 (* composition i, in quarters (fractions are 1 for a single composition, 1/4 and 3/4 for <<0,1>>) *)
 Quarter(cs, i) == IF Len(cs) = 1 THEN 4 ELSE IF i = 0 THEN 1 ELSE 3
 Listed(cs, i) == \E j \in 1..Len(cs) : cs[j] = i
-PaintC(f, i, old) ==
-  IF f.ma.c.k = "none" THEN old
-  ELSE IF Listed(f.ma.c.cs, i) THEN ApplyOp(f.ma.c.op, old, Quarter(f.ma.c.cs, i))
-  ELSE IF f.ma.c.op = "replace" THEN 0        \* replace clears the compositions it does not list
+PaintC1(m, i, old) ==
+  IF Listed(m.cs, i) THEN ApplyOp(m.op, old, Quarter(m.cs, i))
+  ELSE IF m.op = "replace" THEN 0             \* replace clears the compositions it does not list
   ELSE old
+RECURSIVE PaintCs(_, _, _, _)
+PaintCs(ms, k, i, old) == IF k > Len(ms) THEN old ELSE PaintCs(ms, k + 1, i, PaintC1(ms[k], i, old))
+PaintC(f, i, old) == PaintCs(f.ma.c, 1, i, old)
 
 (* grains of composition 0, one grain: 0 = untouched background (all zero), m = uniform model m *)
 PaintG(f, old) == IF f.ma.g.k = "none" THEN old ELSE f.ma.g.m
@@ -102,8 +112,8 @@ MoveOK(w) == \A i \in NonCovering(w), j \in 0..(Len(w) - 1) :
 TagIsLastCovering(w) == LET a == Answer(w) IN
                           IF a.last = 0 THEN a.tag = "" ELSE a.tag = TagName(w[a.last]) /\ \A j \in (a.last+1)..Len(w) : ~Covers(w[j])
 AddSubCancel == \A ty \in Types, v \in {100, 300} :
-                  Answer(<<Feat(ty, "cover", MA(TM(v, "add"), None, None, None), ""),
-                           Feat(ty, "cover", MA(TM(v, "subtract"), None, None, None), "")>>).t = Tp
+                  Answer(<<Feat(ty, "cover", MA(<<TM(v, "add")>>, <<>>, None, None), ""),
+                           Feat(ty, "cover", MA(<<TM(v, "subtract")>>, <<>>, None, None), "")>>).t = Tp
 ReplaceForgets == \A f \in Catalogue, ty \in Types :
                   Answer(<<f, Feat(ty, "cover", FullMA, "")>>).t = 500
 
@@ -117,10 +127,9 @@ RotX == << <<1, 0, 0>>, <<0, 0, -1>>, <<0, 1, 0>> >>
 GMat(m) == IF m = 1 THEN RotZ ELSE RotX
 GSize(m) == IF m = 1 THEN Dec(5, -1) ELSE Dec(25, -2)
 
-RenderT(ma) == IF ma.t.k = "none" THEN <<>> ELSE <<TUniform(ma.t.v, ma.t.op)>>
-RenderC(ma) == IF ma.c.k = "none" THEN <<>>
-               ELSE IF Len(ma.c.cs) = 1 THEN <<CUniform(ma.c.cs, ma.c.op)>>
-               ELSE <<CUniformF(ma.c.cs, <<Dec(25, -2), Dec(75, -2)>>, ma.c.op)>>
+RenderT(ma) == [k \in 1..Len(ma.t) |-> TUniform(ma.t[k].v, ma.t[k].op)]
+RenderC(ma) == [k \in 1..Len(ma.c) |-> IF Len(ma.c[k].cs) = 1 THEN CUniform(ma.c[k].cs, ma.c[k].op)
+                                       ELSE CUniformF(ma.c[k].cs, <<Dec(25, -2), Dec(75, -2)>>, ma.c[k].op)]
 RenderG(ma) == IF ma.g.k = "none" THEN <<>> ELSE <<GUniform(<<0>>, <<GMat(ma.g.m)>>, <<GSize(ma.g.m)>>)>>
 RenderV(ma) == IF ma.v.k = "none" THEN <<>> ELSE <<VUniform(ma.v.v)>>
 
@@ -170,6 +179,7 @@ Behaviour(w) ==
       lv == LastV(w)
       labels == <<"paint", "n" \o ToString(Len(w)), "last:" \o (IF a.last = 0 THEN "none" ELSE w[a.last].type)>>
                 \o (IF LineCovers(w) THEN <<"line-covers">> ELSE <<>>)
+                \o (IF \E i \in 1..Len(w) : Len(w[i].ma.t) = 2 \/ Len(w[i].ma.c) = 2 THEN <<"two-models-of-a-kind">> ELSE <<>>)
                 \o (IF \E i \in 1..Len(w) : Covers(w[i]) /\ IsLine(w[i].type) /\ w[i].ma.g.k = "none" THEN <<"line-without-grains-covers">> ELSE <<>>)
   IN
   [id |-> <<"paint", w>>, labels |-> labels,
